@@ -28,6 +28,7 @@ fn c01_plan(cfg: &Cfg) -> BinPlan {
         nat_complete_u8: true,
         nat_complete_u16: !q,
         nat_full_b: if q { 4 } else { 6 },
+        wordlat: true,
     }
 }
 
@@ -49,6 +50,7 @@ fn c02_plan(cfg: &Cfg) -> BinPlan {
         nat_complete_u8: true,
         nat_complete_u16: false,
         nat_full_b: if q { 4 } else { 6 },
+        wordlat: true,
     }
 }
 
@@ -70,6 +72,7 @@ fn c04_plan(cfg: &Cfg) -> BinPlan {
         nat_complete_u8: true,
         nat_complete_u16: !q,
         nat_full_b: if q { 4 } else { 6 },
+        wordlat: true,
     }
 }
 
